@@ -342,7 +342,7 @@ const ruleHist = "sequences of 2-12 accessor calls (RouteInfo, ContentType, Resp
 
 func Props() []kit.Runner {
 	return []kit.Runner{
-		kit.Prop[Batch]{ID: "C09", Name: "schedules", Rule: ruleSched, Quick: 100, Thorough: 400, Gen: GenBatch, Check: CheckBatch, Classify: ClassifyBatch, SampleLimit: 900},
-		kit.Prop[History]{ID: "C09", Name: "histories", Rule: ruleHist, Quick: 20000, Thorough: 100000, Gen: GenHistory, Check: CheckHistory, Classify: ClassifyHistory},
+		kit.Prop[Batch]{ID: "C09", Name: "schedules", Rule: ruleSched, Quick: 100, Thorough: 2000, Gen: GenBatch, Check: CheckBatch, Classify: ClassifyBatch, SampleLimit: 900},
+		kit.Prop[History]{ID: "C09", Name: "histories", Rule: ruleHist, Quick: 20000, Thorough: 300000, Gen: GenHistory, Check: CheckHistory, Classify: ClassifyHistory},
 	}
 }
